@@ -7,8 +7,10 @@ exhaustive enumeration of (viewer cap list x simulator grant) for the Seed rewri
 Universe
   cap names      Seed, EventQueueGet, GetMesh2 (asset cap), Foo; temporaries are called FooUploader; proxy-only caps are
                  called ProxyFoo / ProxyBar
-  URL pool       A=https://sim/cap/a, A1=https://sim/cap/a1, AX=https://sim/cap/a/x  (A is a textual prefix of both
-                 others; A+"/x" == AX); every region has its own Seed URL (https://sim/cap/seed-<s><r>)
+  URL pool       A=https://sim/cap/a, A1=https://sim/cap/a1, AS=https://sim/cap/a/ (slash-terminated, OpenSim style),
+                 AX=https://sim/cap/a/x  (A is a textual prefix of all others, AS of AX; A+"/x" == AX); every region has its
+                 own Seed URL (https://sim/cap/seed-<s><r>); region r of BOTH sessions has the same circuit address (two
+                 agents in one simulator), so anything keyed on the simulator instead of the agent collides
 Alphabet (event tuples; `reg` = region index 0..3)
   ("grant", reg, ((name,url),...))        region.update_caps({...})  -- 1 or 2 entries (re-grant with new / same URL, same
                                           URL under two names, asset + normal on prefix-related URLs)
@@ -48,7 +50,10 @@ unaffordable at ~1 ms per replayed transition.  The space is therefore covered b
 region in resolution order) and "cross" (a lite alphabet -- 3 colliding grants, one temporary, one proxy cap, one seed
 flow -- on all four regions).  Lookups are oracle sweeps after every step rather than events (except consuming ones), so
 they cost no depth.  The Seed clauses are additionally enumerated exhaustively over viewer lists x grants (DESIGN's
-fallback), through the same real event manager.
+fallback), through the same real event manager.  Two scenario families (see _family_cases) enumerate the cross-session
+wrapper collisions and the one-shot / trailing-slash cases exhaustively instead of reaching them by deeper BFS.
+Additional clauses: wrapper-url-unique (one wrapper URL handed out for two regions), lookup-raises / call-raises (an
+exception escaping the code under test).
 """
 from __future__ import annotations
 
@@ -63,8 +68,8 @@ from hmc.core import HarnessError, Part, Run, digest, jsonable, pmap
 
 LEVEL = "model_checking"
 
-A, A1, AX = "https://sim/cap/a", "https://sim/cap/a1", "https://sim/cap/a/x"
-POOL = (A, A1, AX)
+A, A1, AS, AX = "https://sim/cap/a", "https://sim/cap/a1", "https://sim/cap/a/", "https://sim/cap/a/x"
+POOL = (A, A1, AS, AX)
 NEVER = "https://sim/cap/zz"
 SUFFIXES = ("", "/x")
 EQG, GM2, FOO, SEED = "EventQueueGet", "GetMesh2", "Foo", "Seed"
@@ -92,26 +97,35 @@ def scope_of(api: str) -> Tuple[int, ...]:
 
 
 # ---- alphabets ------------------------------------------------------------------------------------------------------
-FULL_GRANTS = (
-    ((EQG, A),), ((EQG, A1),), ((EQG, AX),), ((GM2, A),), ((GM2, A1),), ((FOO, A),),
-    ((EQG, A), (FOO, A)),            # same URL under two names in one grant
-    ((GM2, A1), (EQG, AX)),          # asset + normal, both extending A
-)
-LITE_GRANTS = (((EQG, A),), ((GM2, A),), ((FOO, A1),))
-FULL_TEMPS, LITE_TEMPS = (A, A1), (A,)
-FULL_LISTS = ((EQG, GM2), (EQG, GM2, "ProxyFoo"), ("ProxyBar", FOO, "ProxyFoo"))
-LITE_LISTS = ((EQG, GM2, "ProxyFoo"),)
-FULL_RESP = ((), ((EQG, A),), ((GM2, A),), ((EQG, A1), (GM2, A)), ((FOO, AX),))
-LITE_RESP = (((EQG, A),), ((GM2, A1),))
-PROFILES = {
-    "full": dict(grants=FULL_GRANTS, temps=FULL_TEMPS, proxies=PROXY_NAMES, lists=FULL_LISTS, reseed=True, wrap=True),
-    "lite": dict(grants=LITE_GRANTS, temps=LITE_TEMPS, proxies=PROXY_NAMES[:1], lists=LITE_LISTS, reseed=False, wrap=False),
-}
-SEARCHES = {
-    "first": dict(profiles={0: "full"}, resp=FULL_RESP),
-    "last": dict(profiles={3: "full"}, resp=FULL_RESP),
-    "cross": dict(profiles={0: "lite", 1: "lite", 2: "lite", 3: "lite"}, resp=LITE_RESP),
-}
+def alphabets(tier: str):
+    """Stated alphabets. quick's menus are subsets of thorough's (same universe, same events, fewer parameters)."""
+    quick = tier == "quick"
+    full_grants = [
+        ((EQG, A),), ((EQG, A1),), ((EQG, AS),), ((GM2, A),), ((GM2, AS),), ((FOO, A),),
+        ((EQG, A), (FOO, A)),            # same URL under two names in one grant
+        ((GM2, A1), (EQG, AX)),          # asset + normal, both extending A
+    ]
+    full_temps = [A, AS]
+    full_resp = [((EQG, A),), ((GM2, AS),), ((EQG, A1), (GM2, A)), ((FOO, AX),)]
+    if not quick:
+        full_grants += [((EQG, AX),), ((GM2, A1),)]
+        full_temps += [A1]
+        full_resp += [(), ((GM2, A),)]
+    full_lists = ((EQG, GM2), (EQG, GM2, "ProxyFoo"), ("ProxyBar", FOO, "ProxyFoo"))
+    profiles = {
+        "full": dict(grants=tuple(full_grants), temps=tuple(full_temps), proxies=PROXY_NAMES, lists=full_lists, reseed=True, wrap=True),
+        "lite": dict(grants=(((EQG, A),), ((GM2, A),), ((FOO, A1),)), temps=(AS,), proxies=PROXY_NAMES[:1],
+                     lists=((EQG, GM2, "ProxyFoo"),), reseed=False, wrap=False),
+    }
+    searches = {
+        "first": dict(profiles={0: "full"}, resp=tuple(full_resp)),
+        "last": dict(profiles={3: "full"}, resp=tuple(full_resp)),
+        "cross": dict(profiles={0: "lite", 1: "lite", 2: "lite", 3: "lite"}, resp=(((EQG, A),), ((GM2, A1),))),
+    }
+    return profiles, searches
+
+
+RAISED = "!raised"
 
 
 class World:
@@ -135,9 +149,10 @@ def _bad(w: World, clause: str, site: str, detail: str):
 class Harness:
     copyable = False
 
-    def __init__(self, search: str = "first", memo: bool = True):
+    def __init__(self, search: str = "first", memo: bool = True, tier: str = "thorough"):
         self.search = search
-        self.cfg = SEARCHES[search]
+        self.profiles, searches = alphabets(tier)
+        self.cfg = searches[search]
         self.memo: Optional[Dict[bytes, Any]] = {} if memo else None
 
     # ---- construction ---------------------------------------------------------------------------------------
@@ -177,7 +192,7 @@ class Harness:
     def enabled(self, w: World):
         evs: List[tuple] = []
         for reg in sorted(self.cfg["profiles"]):
-            p = PROFILES[self.cfg["profiles"][reg]]
+            p = self.profiles[self.cfg["profiles"][reg]]
             for g in p["grants"]:
                 evs.append(("grant", reg, g))
             if p["reseed"] and w.seed_gen[reg] == 0:
@@ -242,6 +257,14 @@ class Harness:
     # ---- normalisation of API results -----------------------------------------------------------------------
     def call(self, w: World, api: str, url: str, consume: Optional[bool] = None):
         """-> None (unattributed) or (name, type, region index|None, session index|None, base_url)."""
+        try:
+            return self._call(w, api, url, consume)
+        except HarnessError:
+            raise
+        except Exception as e:
+            return (RAISED, repr(e), None, None, None)
+
+    def _call(self, w: World, api: str, url: str, consume: Optional[bool]):
         u = w.u
         if api == "mgr":
             cd = u.sm.resolve_cap(url)
@@ -276,6 +299,10 @@ class Harness:
     def judge(self, w: World, api: str, url: str, res, cands, consume_note: str = ""):
         """Apply the attribution clauses to one lookup. Returns the matched candidate (or None)."""
         fn = {"m": "SessionManager.resolve_cap", "s": "Session.resolve_cap", "r": "ProxiedRegion.resolve_cap"}[api[0]] + consume_note
+        if res is not None and res[0] == RAISED:
+            kinds = sorted({g[1] for _, g in cands}) or ["none"]
+            _bad(w, "lookup-raises", f"{fn}:{'+'.join(kinds)}", f"{api}({url!r}) raised {res[1]}; extends {cands}")
+            return None
         if not cands:
             if res is not None:
                 was_temp = any(url.startswith(c[2]) and res[0] == c[0] and res[1] == c[1] for i in scope_of(api) for c in w.consumed[i])
@@ -336,9 +363,13 @@ class Harness:
             region = u.regions[reg]
             for name in ALL_NAMES:
                 exp = self.latest(w, reg, name)
-                got = region.caps.get(name)
-                got_n = (got[0].name, got[1]) if got is not None else None
-                got_u = region.cap_urls.get(name)
+                try:
+                    got = region.caps.get(name)
+                    got_n = (got[0].name, got[1]) if got is not None else None
+                    got_u = region.cap_urls.get(name)
+                except Exception as e:
+                    _bad(w, "lookup-raises", "ProxiedRegion.caps[name]", f"region {reg} caps[{name!r}] raised {e!r}")
+                    continue
                 exp_n = (exp[1], exp[2]) if exp else None
                 if got_n != exp_n:
                     _bad(w, "name-most-recent", f"ProxiedRegion.caps[name]:{exp[1] if exp else 'absent'}",
@@ -360,6 +391,30 @@ class Harness:
             if res is None or res[1] != "WRAPPER" or res[2] != reg or res[3] != reg // 2:
                 _bad(w, clause, site, f"wrapper URL {wurl + suffix!r} handed out for region {reg} (session {reg // 2}) resolves to {res}")
 
+    def check_all_wrappers(self, w: World, site: str, clause: str):
+        owner: Dict[str, int] = {}
+        for reg in range(N_REG):
+            for g in w.grants[reg]:
+                if g[1] != "WRAPPER":
+                    continue
+                if g[2] in owner:
+                    if owner[g[2]] != reg:
+                        _bad(w, "wrapper-url-unique", site,
+                             f"wrapper URL {g[2]!r} was handed out for region {owner[g[2]]} and for region {reg}: it cannot resolve back to both")
+                    continue
+                owner[g[2]] = reg
+                self.strict_wrapper_check(w, reg, g[2], site, clause)
+
+    def guarded(self, w: World, site: str, fn, *args, **kw):
+        """Call into the code under test; an exception is a verdict (clause call-raises), not a harness crash."""
+        try:
+            return True, fn(*args, **kw)
+        except HarnessError:
+            raise
+        except Exception as e:
+            _bad(w, "call-raises", site, f"{site}{args!r} raised {e!r}")
+            return False, None
+
     # ---- transitions ----------------------------------------------------------------------------------------
     def step(self, w: World, ev):
         kind = ev[0]
@@ -367,7 +422,7 @@ class Harness:
         w.last_out = None
         if kind == "grant":
             _, reg, pairs = ev
-            u.regions[reg].update_caps({n: url for n, url in pairs})
+            self.guarded(w, "ProxiedRegion.update_caps", u.regions[reg].update_caps, {n: url for n, url in pairs})
             for n, url in pairs:
                 w.grants[reg].append((n, "NORMAL", url))
         elif kind == "reseed":
@@ -375,28 +430,28 @@ class Harness:
             region = u.regions[reg]
             w.seed_gen[reg] += 1
             new = seed_url(reg // 2, reg % 2, w.seed_gen[reg])
-            got = u.sessions[reg // 2].register_region(region.circuit_addr, seed_url=new)
-            if got is not region:
+            ok, got = self.guarded(w, "Session.register_region", u.sessions[reg // 2].register_region, region.circuit_addr, seed_url=new)
+            if ok and got is not region:
                 raise HarnessError("register_region(existing circuit) returned a different region object")
             w.grants[reg].append((SEED, "NORMAL", new))
             w.marks.add("reseed")
         elif kind == "temp":
             _, reg, url = ev
-            u.regions[reg].register_cap(TEMP_NAME, url, CapType.TEMPORARY)
+            self.guarded(w, "ProxiedRegion.register_cap", u.regions[reg].register_cap, TEMP_NAME, url, CapType.TEMPORARY)
             w.grants[reg].append((TEMP_NAME, "TEMPORARY", url))
         elif kind == "wrap":
             reg = ev[1]
-            wurl = u.regions[reg].register_wrapper_cap(WRAPPED)
+            _ok, wurl = self.guarded(w, "ProxiedRegion.register_wrapper_cap", u.regions[reg].register_wrapper_cap, WRAPPED)
             w.last_out = wurl
             w.grants[reg].append((WRAPPER_NAME, "WRAPPER", wurl if isinstance(wurl, str) else repr(wurl)))
-            self.strict_wrapper_check(w, reg, wurl, "ProxiedRegion.register_wrapper_cap", "wrapper-resolves-to-region")
+            self.check_all_wrappers(w, "ProxiedRegion.register_wrapper_cap", "wrapper-resolves-to-region")
             w.marks.add("wrapper")
         elif kind == "proxy":
             _, reg, name = ev
             region = u.regions[reg]
             prev = self.latest(w, reg, name)
             n_before = len(region.caps.getall(name, []))
-            url = region.register_proxy_cap(name)
+            _ok, url = self.guarded(w, "ProxiedRegion.register_proxy_cap", region.register_proxy_cap, name)
             w.last_out = url
             n_after = len(region.caps.getall(name, []))
             if prev is not None and prev[1] == "PROXY_ONLY":
@@ -416,6 +471,8 @@ class Harness:
             cands = self.candidates(w, url, scope_of(api))
             res = self.call(w, api, url)
             w.last_out = res[:4] if res else None
+            if res is None or res[0] != RAISED:
+                w.marks.add("temp-lookup")
             hit = self.judge(w, api, url, res, cands)
             if hit is not None and hit[1][1] == "TEMPORARY":
                 reg, g = hit
@@ -449,6 +506,9 @@ class Harness:
         expected = [n for n in names if n not in po]
         out = u.seed_request(url, list(names))
         w.last_out = (out["upstream"], out["cap"])
+        if u.pump_errors:
+            _bad(w, "call-raises", site, f"seed request to {url} made the event manager raise {u.pump_errors}")
+            u.pump_errors = []
         region = u.regions[reg]
         cap = out["cap"]
         want_cap = (SEED, str(region.circuit_addr), str(u.sessions[reg // 2].id))
@@ -483,6 +543,9 @@ class Harness:
         site = "MITMProxyEventManager._handle_response[Seed]"
         out = u.seed_response(p["state"], {n: url for n, url in grant})
         w.pending = None
+        if u.pump_errors:
+            _bad(w, "call-raises", site, f"seed response for region {reg} made the event manager raise {u.pump_errors}")
+            u.pump_errors = []
         body = out["body"]
         w.last_out = body
         for n, url in grant:
@@ -498,7 +561,7 @@ class Harness:
                     _bad(w, "seed-response-wraps-asset", site, f"region {reg}: asset cap {n} passed to the viewer unwrapped ({url})")
                 else:
                     w.grants[reg].append((n + "ProxyWrapper", "WRAPPER", wurl if isinstance(wurl, str) else repr(wurl)))
-                    self.strict_wrapper_check(w, reg, wurl, site, "seed-response-wraps-asset")
+                    self.check_all_wrappers(w, site, "seed-response-wraps-asset")
             elif body.get(n) != url:
                 _bad(w, "seed-response-preserves-grant", site,
                      f"region {reg}: simulator granted {n}={url!r}, viewer receives {body.get(n)!r}")
@@ -621,34 +684,103 @@ def _seed_worker(case):
     return part.dump()
 
 
+# ---- targeted scenario families (exhaustive over small stated products; collisions made on purpose) ------------------
+_FAMILY_URLS: Tuple[str, ...] = POOL
+_FAMILY_REGS: Tuple[int, ...] = (0, 1, 2, 3)
+
+
+def _wrapper_route(reg: int, url: str, route: str):
+    if route == "direct":
+        return [("grant", reg, ((GM2, url),)), ("wrap", reg)]
+    return [("seedreq", reg, 0, (EQG, GM2)), ("seedresp", ((GM2, url),))]
+
+
+def _family_cases():
+    """wrappers: two regions (every ordered pair; regions r of both sessions share a simulator address) are each given an
+    asset cap (same / prefix-related / slash-terminated URLs) and a wrapper, directly or through a Seed response.
+    one-shots: one or two temporaries on (slash-terminated, prefix-related) URLs in one region, then one consuming lookup
+    per temporary through every API, bare and extended."""
+    for i in range(N_REG):
+        for j in range(N_REG):
+            if i == j:
+                continue
+            for u in _FAMILY_URLS:
+                for v in _FAMILY_URLS:
+                    for ri in ("direct", "seed"):
+                        for rj in ("direct", "seed"):
+                            yield ("wrappers", _wrapper_route(i, u, ri) + _wrapper_route(j, v, rj))
+    for reg in _FAMILY_REGS:
+        apis = ("mgr", f"s{reg // 2}", f"r{reg}")
+        looks = [(api, sfx) for api in apis for sfx in SUFFIXES]
+        for u1 in POOL:
+            for a1, s1 in looks:
+                yield ("one-shots", [("temp", reg, u1), ("lookup", a1, u1 + s1), ("lookup", a1, u1 + s1)])
+            for u2 in POOL:
+                if u2 == u1:
+                    continue
+                for a1, s1 in looks:
+                    for a2, s2 in looks:
+                        yield ("one-shots", [("temp", reg, u1), ("temp", reg, u2), ("lookup", a1, u1 + s1), ("lookup", a2, u2 + s2)])
+
+
+def _family_worker(case):
+    label, history = case
+    part = Part()
+    h = Harness("first", memo=False)
+    w = h.fresh()
+    for k, ev in enumerate(history):
+        w.violations = []
+        h.step(w, ev)
+        for v in w.violations:
+            part.violation(v["clause"], v["site"], {"history": history[:k + 1], "search": "family:" + label}, v["detail"])
+        if w.violations:
+            break
+    part.count("evaluations")
+    part.count("family_cases")
+    part.mark_nontrivial(("family", label, tuple(history)))
+    part.outcome(("family", jsonable(w.last_out), w.obs))
+    if label == "wrappers" and history[0][1] == 0 and history[2][1] == 2 and history[0][0] != history[2][0]:
+        part.sample({"search": "family:" + label, "history": history, "last_output": w.last_out})
+    return part.dump()
+
+
 # ---- entry points -------------------------------------------------------------------------------------------------
 def run(run: Run):
-    global _SEED_URLS
+    global _SEED_URLS, _FAMILY_URLS, _FAMILY_REGS
     quick = run.tier == "quick"
-    depths = {"first": 4, "last": 3, "cross": 4} if quick else {"first": 5, "last": 4, "cross": 5}
-    _SEED_URLS = (A, A1) if quick else POOL
-    run.rule = ("explicit-state BFS on the real SessionManager/Session/ProxiedRegion/MITMProxyEventManager (2 sessions x 2 regions) "
-                "over {grant(1-2 entries), reseed, temp, wrap, proxy, consuming lookup, seedreq, seedresp} in three stated alphabets "
-                "(first: full alphabet on region 0; last: full alphabet on region 3; cross: lite alphabet on all 4 regions); after "
-                "every transition every known URL (+'/x') is resolved through manager, both sessions and all regions and every name "
-                "is looked up in every region; plus exhaustive viewer-list x simulator-grant enumeration of the Seed rewrite behind 9 "
-                "prefixes. non-trivial = distinct (feature set, model) with a URL extending >= 2 live grants, a re-granted name, a "
-                "consumed temporary, a second register_proxy_cap, a wrapper, a re-seed, a stripped seed request or a wrapped seed response")
+    depths = {"first": 4, "last": 3, "cross": 3} if quick else {"first": 5, "last": 4, "cross": 5}
+    _SEED_URLS = (A, AS) if quick else POOL
+    _FAMILY_URLS = (A, AS) if quick else POOL
+    _FAMILY_REGS = (0, 3) if quick else (0, 1, 2, 3)
+    run.rule = ("explicit-state BFS on the real SessionManager/Session/ProxiedRegion/MITMProxyEventManager (2 sessions x 2 regions; "
+                "region r of both sessions stands in the same simulator = same circuit address, own Seed URL) over {grant(1-2 "
+                "entries), reseed, temp, wrap, proxy, consuming lookup, seedreq, seedresp} in three stated alphabets (first: full "
+                "alphabet on region 0; last: full alphabet on region 3; cross: lite alphabet on all 4 regions); URL pool a, a1, a/, "
+                "a/x; after every transition every known URL (bare and +'/x') is resolved through manager, both sessions and all "
+                "regions and every name is looked up in every region; plus exhaustive viewer-list x simulator-grant enumeration of "
+                "the Seed rewrite behind 9 prefixes; plus two scenario families enumerated exhaustively (wrappers for every ordered "
+                "region pair x asset URL pair x {register_wrapper_cap, Seed response}; one or two one-shots per region x URL pair x "
+                "lookup API x suffix). non-trivial = distinct (feature set, model) with a URL extending >= 2 live grants, a "
+                "re-granted name, a consumed temporary, a second register_proxy_cap, a wrapper, a re-seed, a stripped seed request "
+                "or a wrapped seed response; every family case")
     run.assumptions += [
         "simulator grants only names present in the upstream seed request and never a name the proxy registered itself "
         "(temporary / wrapper / proxy-only); who wins such a collision is not stated",
-        "Seed URLs are unique per region (wrapper host names derive from them); granted URLs are http(s) strings",
+        "Seed URLs are unique per region/agent; circuit addresses are shared by the two sessions; granted URLs are http(s) strings",
         "a one-shot (temporary) URL is not registered again in the same region while it is still live (two identical live "
         "temporaries are indistinguishable, so 'most recent' after consuming one of them is not defined)",
         "plain asset caps (GetMesh2, NORMAL) may resolve with region/session None, as documented in Session.resolve_cap",
-        "a URL extending several live grants (same URL twice, textual prefix, several regions) may resolve to any of them",
+        "a URL extending several live grants (same URL twice, textual prefix, several regions) may resolve to any of them; "
+        "'extends' is textual (str.startswith), so https://sim/cap/a does NOT extend a cap granted as https://sim/cap/a/",
+        "wrapper URLs are exempt from the any-of-them rule: each must resolve to the region/session it was handed out for",
+        "an exception escaping resolve_cap / register_* / update_caps / the event manager's pump is a violation (lookup-raises, call-raises)",
         "trusted base: hippolyzer.lib.base.llsd for list/map-of-string bodies, mitmproxy flow (de)serialisation, "
         "in-memory stand-ins for multiprocessing queues/events, viewer cache-dir probing stubbed out",
         "lookups are oracle observations after every transition (consuming ones are events); sweep results are memoised per "
         "canonical state inside a worker (a state whose sweep passed and left the caps unchanged is not swept again)",
     ]
     for name in ("first", "last", "cross"):
-        h = Harness(name)
+        h = Harness(name, tier=run.tier)
         before = len(run.violations)
         explore.bfs(run, h, depth=depths[name], dev_bound=0, label=name + " ")
         for v in run.violations[before:]:
@@ -661,6 +793,13 @@ def run(run: Run):
         run.merge(d)
     run.coverage_extra["seed_enumeration"] = {"prefixes": len(SEED_PREFIXES), "viewer_lists": len(cases) // len(SEED_PREFIXES),
                                               "cases": run.counters.get("seed_cases", 0), "grant_urls": list(_SEED_URLS)}
+    # scenario families
+    fam = list(_family_cases())
+    for d in pmap(_family_worker, fam, run.jobs):
+        run.merge(d)
+    run.coverage_extra["families"] = {"wrappers": sum(1 for c in fam if c[0] == "wrappers"),
+                                      "one-shots": sum(1 for c in fam if c[0] == "one-shots"),
+                                      "urls": list(_FAMILY_URLS), "one_shot_regions": list(_FAMILY_REGS)}
     # shrink witnesses
     for v in run.violations:
         wit = v["witness"]
